@@ -149,7 +149,7 @@ def run(R):
         R.check(len(ag) == 1 and 'arg1' in show(sf.origin(ag[0][4][0])), 'C12.R2', 'status-future-holds-status', site(sf), 'Kind::Status(Some(status))')
         pl = tonic.body(re.compile(r'service::interceptor::ResponseFuture<F> as std::future::Future>::poll$'))
         R.saw(pl, sf)
-        ih = pl.calls(pat='Status::into_http')
+        ih = status_response_sites(tonic, pl)
         R.check(len(ih) == 1, 'C12.R2', 'poll:into_http', site(pl), 'Status::into_http sites: %d' % len(ih))
         kadt = {v['name']: v['discr'] for v in tonic.adt('service::interceptor::Kind')['variants']}
         for bb, t in ih:
@@ -173,6 +173,9 @@ def run(R):
                     if clo[0] == 'agg' and 'def' in clo[1]:
                         cb_ = [y for y in tonic.bodies if y.path == clo[1]['def']]
                         okb = bool(cb_) and all(is_call(strip_refs(x_), name='empty') for _, x_ in mirlib.returned_terms(cb_[0]))
+        if not okb and len(ih) == 1 and ih[0][1].get('spliced') and len(ih[0][1]['args']) >= 2:
+            # into_trailers_only(status, ResponseBody::empty()): the shared constructor gets the empty body as its argument
+            okb = is_call(strip_refs(pl.origin(ih[0][1]['args'][1])), name='empty')
         R.check(len(em) == 1 and okb, 'C12.R2', 'poll:parts+empty-body', site(pl), 'response = the head of Status::into_http with ResponseBody::empty() (empty() sites %d)' % len(em))
         polls = pl.calls(pat='Future::poll')
         for bb, t in polls:
